@@ -1155,4 +1155,144 @@ theorem surfedges_roundtrip (isZero : Nat → Bool) (fresh dummy : Nat) (ed : Na
       · exact List.prefix_append _ _
     exact hv.trans pV
 
+
+/-! ## water leaf info -/
+
+theorem writeWater_spec : ∀ (ws : List WaterV) (f : IdFinder), f.Inv idKey →
+    f.list <+: (writeWater f ws).2.list ∧
+    ∀ final, (writeWater f ws).2.list <+: final → readWater final (writeWater f ws).1 = .ok ws := by
+  intro ws
+  induction ws with
+  | nil => intro f _; exact ⟨List.prefix_refl _, fun _ _ => rfl⟩
+  | cons w ws ih =>
+    intro f hf
+    obtain ⟨i1, p1, r1⟩ := finder_res f hf w.texinfo
+    obtain ⟨p2, rd⟩ := ih _ i1
+    simp only [writeWater]
+    refine ⟨p1.trans p2, ?_⟩
+    intro final hfin
+    simp only [readWater, pyIdx_nat, r1 final (p2.trans hfin), rd final hfin]
+
+/-- **Water leaf info.** -/
+theorem water_roundtrip (texinfo final : List Nat) (ws : List WaterV)
+    (hfin : (writeWater (Finder.mk' idKey texinfo) ws).2.list <+: final) :
+    readWater final (writeWater (Finder.mk' idKey texinfo) ws).1 = .ok ws :=
+  (writeWater_spec ws _ (Finder.mk'_inv idKey texinfo)).2 final hfin
+
+/-! ## VitaminSource faces -/
+
+def VFaceSt.Inv (s : VFaceSt) : Prop := s.fTex.Inv idKey ∧ s.fPlane.Inv idKey
+
+theorem writeVFaces_spec : ∀ (fs : List VFaceV) (s : VFaceSt), s.Inv → (∀ f ∈ fs, f.texinfo.isSome) →
+    s.fTex.list <+: (writeVFaces true s fs).2.fTex.list ∧ s.fPlane.list <+: (writeVFaces true s fs).2.fPlane.list ∧
+    s.eEdges.list <+: (writeVFaces true s fs).2.eEdges.list ∧
+    ∀ (tex planes edges : List Nat), (writeVFaces true s fs).2.fTex.list <+: tex → (writeVFaces true s fs).2.fPlane.list <+: planes →
+      (writeVFaces true s fs).2.eEdges.list <+: edges → readVFaces tex planes edges (writeVFaces true s fs).1 = .ok fs := by
+  intro fs
+  induction fs with
+  | nil => intro s _ _; exact ⟨List.prefix_refl _, List.prefix_refl _, List.prefix_refl _, fun _ _ _ _ _ _ => rfl⟩
+  | cons f fs ih =>
+    intro s hs hok
+    obtain ⟨hT, hP⟩ := hs
+    obtain ⟨t, hte⟩ := Option.isSome_iff_exists.mp (hok f (by simp))
+    obtain ⟨iT, pT, rT⟩ := finder_res s.fTex hT t
+    obtain ⟨iP, pP, rP⟩ := finder_res s.fPlane hP f.plane
+    obtain ⟨pE, rE⟩ := efinder_res s.eEdges f.edges
+    have hs1 : (writeVFace true s f).2.Inv := by simp only [writeVFace, hte]; exact ⟨iT, iP⟩
+    obtain ⟨q1, q2, q3, rd⟩ := ih (writeVFace true s f).2 hs1 (fun x hx => hok x (by simp [hx]))
+    have e1 : (writeVFace true s f).2.fTex = (s.fTex.call idKey t).2 := by simp only [writeVFace, hte]
+    have e2 : (writeVFace true s f).2.fPlane = (s.fPlane.call idKey f.plane).2 := by simp only [writeVFace]
+    have e3 : (writeVFace true s f).2.eEdges = (s.eEdges.call true idKey f.edges).2 := by simp only [writeVFace]
+    rw [e1] at q1; rw [e2] at q2; rw [e3] at q3
+    simp only [writeVFaces]
+    refine ⟨pT.trans q1, pP.trans q2, pE.trans q3, ?_⟩
+    intro tex planes edges h1 h2 h3
+    have r := rd tex planes edges h1 h2 h3
+    simp only [readVFaces, r]
+    simp only [writeVFace, hte, readVFace, pyIdx_nat, rP planes (q2.trans h2), rT tex (q1.trans h1), Int.toNat_natCast,
+      rE edges (q3.trans h3)]
+    cases f; simp_all
+
+/-- **VitaminSource faces.** -/
+theorem vfaces_roundtrip (tex planes edges ftex fplanes fedges : List Nat) (fs : List VFaceV) (hok : ∀ f ∈ fs, f.texinfo.isSome)
+    (h1 : (writeVFaces true ⟨Finder.mk' idKey tex, Finder.mk' idKey planes, EFinder.mk' idKey edges⟩ fs).2.fTex.list <+: ftex)
+    (h2 : (writeVFaces true ⟨Finder.mk' idKey tex, Finder.mk' idKey planes, EFinder.mk' idKey edges⟩ fs).2.fPlane.list <+: fplanes)
+    (h3 : (writeVFaces true ⟨Finder.mk' idKey tex, Finder.mk' idKey planes, EFinder.mk' idKey edges⟩ fs).2.eEdges.list <+: fedges) :
+    readVFaces ftex fplanes fedges (writeVFaces true ⟨Finder.mk' idKey tex, Finder.mk' idKey planes, EFinder.mk' idKey edges⟩ fs).1 = .ok fs :=
+  (writeVFaces_spec fs _ ⟨Finder.mk'_inv _ _, Finder.mk'_inv _ _⟩ hok).2.2.2 ftex fplanes fedges h1 h2 h3
+
+/-! ## overlay byte layer: the writer's pad bytes are the reader's zero face slots -/
+
+theorem packInt32_zero : packInt 4 true 0 = .ok [0, 0, 0, 0] := by
+  have h : inRange 4 true 0 = true := by unfold inRange intLo intHi; decide
+  unfold packInt
+  rw [if_pos h]
+  congr 1
+
+theorem pack_i32_zeros (m : Nat) (rest : Fmt) (vs : List Val) :
+    pack (List.replicate m FieldFmt.i32 ++ rest) (List.replicate m (Val.int 0) ++ vs)
+      = pack (FieldFmt.pad (4 * m) :: rest) vs := by
+  induction m with
+  | zero =>
+    simp only [List.replicate_zero, List.nil_append, Nat.mul_zero, pack]
+    cases pack rest vs <;> simp [zeros]
+  | succ m ih =>
+    simp only [List.replicate_succ, List.cons_append, pack, packField, FieldFmt.intInfo, packInt32_zero, ih]
+    cases pack rest vs with
+    | error e => rfl
+    | ok r =>
+      simp only [zeros]
+      have : 4 * (m + 1) = 4 + 4 * m := by omega
+      rw [this, ← List.replicate_append_replicate]
+      rfl
+
+
+theorem pack_cons_congr (f : FieldFmt) (hf : f.isValue = true) (v : Val) {F F' : Fmt} {V V' : List Val}
+    (h : pack F V = pack F' V') : pack (f :: F) (v :: V) = pack (f :: F') (v :: V') := by
+  cases f <;> simp_all [pack, FieldFmt.isValue]
+
+theorem pack_prefix_congr : ∀ (P : Fmt) (pv : List Val), P.length = pv.length → (∀ f ∈ P, f.isValue = true) →
+    ∀ {F F' : Fmt} {V V' : List Val}, pack F V = pack F' V' → pack (P ++ F) (pv ++ V) = pack (P ++ F') (pv ++ V') := by
+  intro P
+  induction P with
+  | nil => intro pv hl _ F F' V V' h; cases pv with
+    | nil => simpa using h
+    | cons _ _ => simp at hl
+  | cons f P ih =>
+    intro pv hl hv F F' V V' h
+    cases pv with
+    | nil => simp at hl
+    | cons v pv =>
+      simp only [List.cons_append]
+      exact pack_cons_congr f (hv f (by simp)) v (ih pv (by simpa using hl) (fun g hg => hv g (by simp [hg])) h)
+
+/-- **Overlay record, byte layer.** What the writer packs — head, the `n` face numbers followed by
+`4·(maxFaces − n)` pad bytes, the floats — is byte for byte what packing the reader's record (all
+`maxFaces` face slots, the unused ones zero) with the reader's format gives. `r` = reader format,
+`w` = the writer's format for `n` faces (hypotheses = `C11_gen_overlay_record`). -/
+theorem overlay_bytes (mf : Nat) (r w : Fmt) (o : OverlayV) (idx : Nat) (hn : o.faces.length ≤ mf)
+    (hmid : (r.drop 3).take mf = List.replicate mf FieldFmt.i32) (hlen : 3 + mf ≤ r.length)
+    (hhead : ∀ f ∈ r.take 3, f.isValue = true)
+    (hw : normalize w = normalize (r.take 3 ++ List.replicate o.faces.length FieldFmt.i32
+            ++ [FieldFmt.pad (4 * (mf - o.faces.length))] ++ r.drop (3 + mf))) :
+    pack w ([.int o.id, .int idx, .int ((o.renderOrder <<< 14) ||| o.faces.length)] ++ o.faces.map Val.int ++ o.floats.map Val.f32)
+      = pack r (overlayRec mf o idx) := by
+  have hr : r = r.take 3 ++ (List.replicate o.faces.length FieldFmt.i32 ++ (List.replicate (mf - o.faces.length) FieldFmt.i32 ++ r.drop (3 + mf))) := by
+    conv => lhs; rw [← List.take_append_drop 3 r]
+    congr 1
+    conv => lhs; rw [← List.take_append_drop mf (r.drop 3)]
+    rw [hmid, List.drop_drop]
+    have hsplit : List.replicate mf FieldFmt.i32 = List.replicate o.faces.length FieldFmt.i32 ++ List.replicate (mf - o.faces.length) FieldFmt.i32 := by
+      rw [List.replicate_append_replicate]; congr 1; omega
+    rw [hsplit, List.append_assoc]
+  rw [← pack_normalize w, hw, pack_normalize]
+  conv => rhs; rw [hr]
+  simp only [overlayRec, List.append_assoc]
+  have h3 : (r.take 3).length = 3 := by simp; omega
+  apply pack_prefix_congr (r.take 3) [.int o.id, .int idx, .int ((o.renderOrder <<< 14) ||| o.faces.length)] (by simp [h3]) hhead
+  apply pack_prefix_congr (List.replicate o.faces.length FieldFmt.i32) (o.faces.map Val.int) (by simp)
+    (by intro f hf; rw [List.eq_of_mem_replicate hf]; rfl)
+  simp only [List.cons_append, List.nil_append]
+  exact (pack_i32_zeros _ _ _).symm
+
 end C11
